@@ -90,7 +90,11 @@ def check(case):
     obs = float(g.observed_disorder)
     slots = (preds.check_cover if mode == "soft" else preds.check_partition)(g.best_alignment, per, "observed")
     preds.check_reported_disorders(g.best_alignment, slots, spec, per, "observed")
-    up, lo = _optimum(spec, per, cover=(mode == "soft"))
+    if gen.continuum_product(cont) <= 1300:
+        up, lo = _optimum(spec, per, cover=(mode == "soft"))
+    else:   # long continua (fast mode only): no independent optimum, the library's exact alignment is the reference
+        up = lo = float(oracle.build_continuum(cont).get_best_alignment(d).disorder)
+        classes.append("long-continuum")
     if mode in ("exact", "soft"):
         if obs > up + tolr * max(1, up) or obs < lo - tolr * max(1, lo):
             raise Violation("observed-not-the-optimum", f"mode {mode}: observed {obs} reference [{lo}, {up}]")
@@ -209,14 +213,25 @@ def cases(tier):
             cs["precision"] = draw(st.sampled_from(["medium", "high", "low", 0.02]))
             cs["mode"] = "exact"
         else:
-            cs["precision"] = draw(st.one_of(st.none(), st.none(), st.sampled_from(["low", 0.05, 0.1, 0.3]),
-                                             st.floats(0.03, 0.9, allow_nan=False).map(lambda x: round(x, 3))))
+            cs["precision"] = draw(st.one_of(st.none(), st.none(), st.sampled_from(["low", 0.1, 0.1, 0.3]),
+                                             st.floats(0.03 if tier == "thorough" else 0.08, 0.9, allow_nan=False).map(lambda x: round(x, 3))))
         if len(names) > 2 and draw(st.booleans()):
             k = draw(st.integers(2, len(names)))
             cs["ground_truth"] = sorted(draw(st.permutations(names))[:k])
         else:
             cs["ground_truth"] = None
         cs["seed"] = draw(st.integers(0, 2 ** 31 - 1))
+        if cs["mode"] == "fast" and draw(st.booleans()):
+            # long sequential continuum: fast-gamma's estimated window is finite there
+            spec = draw(gen.dissim_specs(kinds=("combined", "combined", "pos"), equal_delta_only=True))
+            if spec["kind"] == "combined" and spec["alpha"] < 1:
+                spec["alpha"] = 1.0
+            cs["dissim"] = spec
+            cs["continuum"] = draw(gen.sequence_continua(labels=gen.labels_for(spec), sizes=((3, 30, 33), (4, 15, 16))))
+            cs["sampler"] = "statistical"
+            cs["n_samples"] = draw(st.integers(1, 3))
+            cs["precision"] = None
+            cs["ground_truth"] = draw(st.sampled_from([None, None, ["a", "b"], ["a", "c"], ["a", "b", "c"]]))
         return cs
     return strat()
 
